@@ -680,6 +680,130 @@ pub async fn run_c04_corruption() {
     decode_all(&bytes, false);
 }
 
+/// "Never exhausts the stack": compound values nested around the decoder's depth limit, decoded on a
+/// thread whose stack is scaled to this build. The crate's limit (MAX_NESTING_DEPTH) is tuned for a
+/// 2 MiB thread in an unoptimised build, where the deepest nesting it accepts takes about two thirds
+/// of the stack; the optimised simulator build has smaller frames, so the same inputs are decoded
+/// here on a stack of which the deepest accepted nesting of the unchanged tree takes the same share
+/// (calibrated: NEST_STACK). A decoder that accepts deeper nesting, or needs more stack per level,
+/// overflows it: the worker dies and the run is attributed by the orchestrator.
+pub const NEST_STACK: usize = 248 * 1024;
+
+fn nest(kind: u32, depth: usize, leaf: &[u8]) -> Vec<u8> {
+    let mut inner = leaf.to_vec();
+    for _ in 0..depth {
+        let mut outer = Vec::with_capacity(inner.len() + 16);
+        match kind {
+            0 => {
+                // list32 [ inner ]
+                outer.push(0xd0);
+                outer.extend_from_slice(&((inner.len() + 4) as u32).to_be_bytes());
+                outer.extend_from_slice(&1u32.to_be_bytes());
+                outer.extend_from_slice(&inner);
+            }
+            1 => {
+                // map32 { null: inner }
+                outer.push(0xd1);
+                outer.extend_from_slice(&((inner.len() + 5) as u32).to_be_bytes());
+                outer.extend_from_slice(&2u32.to_be_bytes());
+                outer.push(0x40);
+                outer.extend_from_slice(&inner);
+            }
+            2 => {
+                // map32 { inner: null }
+                outer.push(0xd1);
+                outer.extend_from_slice(&((inner.len() + 5) as u32).to_be_bytes());
+                outer.extend_from_slice(&2u32.to_be_bytes());
+                outer.extend_from_slice(&inner);
+                outer.push(0x40);
+            }
+            3 => {
+                // array32 of one element of whatever the inner value is (constructor + body)
+                outer.push(0xf0);
+                outer.extend_from_slice(&((inner.len() + 4) as u32).to_be_bytes());
+                outer.extend_from_slice(&1u32.to_be_bytes());
+                outer.extend_from_slice(&inner);
+            }
+            4 => {
+                // described by a small ulong
+                outer.extend_from_slice(&[0x00, 0x53, 0x70]);
+                outer.extend_from_slice(&inner);
+            }
+            _ => {
+                // alternating list / map
+                if inner.len() % 2 == 0 {
+                    outer.push(0xd0);
+                    outer.extend_from_slice(&((inner.len() + 4) as u32).to_be_bytes());
+                    outer.extend_from_slice(&1u32.to_be_bytes());
+                    outer.extend_from_slice(&inner);
+                } else {
+                    outer.push(0xd1);
+                    outer.extend_from_slice(&((inner.len() + 5) as u32).to_be_bytes());
+                    outer.extend_from_slice(&2u32.to_be_bytes());
+                    outer.push(0x40);
+                    outer.extend_from_slice(&inner);
+                }
+            }
+        }
+        inner = outer;
+    }
+    inner
+}
+
+/// Every decode of `decode_all`, without the bookkeeping (runs on a thread of its own)
+fn decode_plain(bytes: &[u8]) -> (bool, bool) {
+    let a: Result<Value, _> = from_slice(bytes);
+    let mut cur = std::io::Cursor::new(bytes.to_vec());
+    let b: Result<Value, _> = from_reader(&mut cur);
+    let _: Result<Performative, _> = from_slice(bytes);
+    let _: Result<Deserializable<Message<Body<Value>>>, _> = from_slice(bytes);
+    let mut cur = std::io::Cursor::new(bytes.to_vec());
+    let _: Result<Deserializable<Message<Body<Value>>>, _> = from_reader(&mut cur);
+    let _ = {
+        let mut r = serde_amqp::read::SliceReader::new(bytes);
+        LazyValue::from_reader(&mut r)
+    };
+    let mut f = BytesMut::from(&[2u8, 0, 0, 0][..]);
+    f.extend_from_slice(bytes);
+    let _ = FrameDecoder {}.decode(&mut f);
+    // the application-properties of a message: a map whose values are the nested value
+    let mut m = vec![0x00, 0x53, 0x74, 0xd1];
+    m.extend_from_slice(&((bytes.len() + 4 + 3) as u32).to_be_bytes());
+    m.extend_from_slice(&2u32.to_be_bytes());
+    m.extend_from_slice(&[0xa1, 0x01, b'k']);
+    m.extend_from_slice(bytes);
+    let _: Result<Deserializable<Message<Body<Value>>>, _> = from_slice(&m);
+    if let Ok(v) = &a {
+        // what was accepted is encoded and dropped again on the same stack
+        let _ = to_vec(v);
+    }
+    (a.is_ok(), b.is_ok())
+}
+
+pub async fn run_c04_nesting_small_stack() {
+    let kind = choice(6);
+    let depth = pick(&[20usize, 60, 100, 120, 126, 127, 128, 129, 160, 190, 200, 254, 255, 256, 300, 600]);
+    let leaf: &[u8] = pick(&[&[0x40u8][..], &[0x50, 7][..], &[0xa1, 0x01, b'x'][..], &[0x45][..]]);
+    let bytes = nest(kind, depth, leaf);
+    let stack: usize = std::env::var("VERIF_C04_NEST_STACK").ok().and_then(|s| s.parse().ok()).unwrap_or(NEST_STACK);
+    sim::set_config(format!("variant=nesting-on-a-scaled-stack kind={} depth={} len={} stack={}B", ["lists", "maps-in-value-position", "maps-in-key-position", "arrays", "described", "lists-and-maps"][kind as usize], depth, bytes.len(), stack));
+    sim::mark_nontrivial();
+    sim::evh_bytes(0xC04, &bytes);
+    sim::fault("deep-nesting");
+    let b2 = bytes.clone();
+    let h = std::thread::Builder::new().name("c04-nesting".into()).stack_size(stack).spawn(move || decode_plain(&b2));
+    match h.map(|h| h.join()) {
+        Ok(Ok((a, b))) => {
+            if a != b {
+                sim::violation("readers-disagree", format!("nesting depth {}: slice reader accepts = {}, stream reader accepts = {}", depth, a, b));
+            }
+            sim::probe(if a { "nested-value-accepted" } else { "nested-value-rejected" });
+        }
+        Ok(Err(_)) => sim::violation("panic", format!("decoding a value nested {} deep panicked", depth)),
+        Err(e) => sim::harness_error("thread", format!("{:?}", e)),
+    }
+}
+
 /// Valid encodings, uncorrupted: every one must decode (both readers, chunked, interrupted),
 /// and what it decodes to must survive the crate's own encoder
 pub async fn run_c04_valid() {
